@@ -193,13 +193,17 @@ impl FileSystem for MemoryFS {
     }
 
     fn open_file(&self, path: &str) -> VfsResult<Box<dyn SeekAndRead + Send>> {
-        self.set_access_time(path, SystemTime::now())?;
-
         #[cfg(feature = "verif-hooks")]
         crate::verif_hooks::yield_point("memfs:get_reader");
-        let handle = self.handle.read().unwrap();
-        let file = handle.files.get(path).ok_or(VfsErrorKind::FileNotFound)?;
+        // stamp the access time and hand out the content under one lock, so that the file cannot be
+        // removed or replaced in between and a failing call stamps nothing
+        let mut handle = self.handle.write().unwrap();
+        let file = handle
+            .files
+            .get_mut(path)
+            .ok_or(VfsErrorKind::FileNotFound)?;
         ensure_file(file)?;
+        file.accessed = Some(SystemTime::now());
         Ok(Box::new(ReadableFile {
             content: file.content.clone(),
             position: 0,
